@@ -1,4 +1,5 @@
 import CoupeModel.Model.Hilbert
+import CoupeModel.Model.HilbertQuantise
 import CoupeModel.Driver.Util
 
 /-! Line-protocol handler of C08 (Hilbert index, coordinate quantisation).
@@ -11,8 +12,8 @@ ops (integers decimal unless stated; floats as binary64 bit patterns in hex):
   `seg <order> <min> <max> <n> v1 …`           -> cells | `panic …` | `hang`
 
 The encoders are the model's own `fast2`, `enc3U`, `slow2U`, `pdepFallback`.
-`segment_to_segment` and `nextafter` are IEEE binary64 computations: they are
-mirrored here on Lean's `Float` (hardware doubles), statement by statement. -/
+`segment_to_segment` and `nextafter` are IEEE binary64 computations, mirrored on Lean's
+`Float` (hardware doubles) in `Model/HilbertQuantise.lean`. -/
 
 namespace Coupe.Driver.C08
 open Coupe.Hilbert Coupe.Driver
@@ -25,55 +26,11 @@ def grid3Max : Nat := 7
 def parseU64? (s : String) : Option Nat := (parseNat? s).filter (· < W64)
 def parseHex64? (s : String) : Option Nat := (parseHex? s).filter (· < W64)
 
-/-! ## binary64 helpers -/
-
-def fOfBits (n : Nat) : Float := Float.ofBits (UInt64.ofNat n)
-def posInf : Float := fOfBits 0x7ff0000000000000
-def negInf : Float := fOfBits 0xfff0000000000000
-def fNaN : Float := fOfBits 0x7ff8000000000000
-
-/-- `f64::copysign(mag, sign)` on the bit patterns. -/
-def copysign (mag sign : Float) : Float :=
-  Float.ofBits ((mag.toBits &&& 0x7fffffffffffffff) ||| (sign.toBits &&& 0x8000000000000000))
-
-/-- `src/nextafter.rs: nextafter(from, to)`, branch by branch. -/
-def nextafter (frm to : Float) : Float :=
-  if frm == to then to
-  else if frm.isNaN || to.isNaN then fNaN
-  else if frm ≥ posInf then posInf
-  else if frm ≤ negInf then negInf
-  else if frm == 0.0 then copysign (Float.ofBits 1) to
-  else
-    let ret :=
-      if decide (frm < to) == decide ((0.0 : Float) < frm) then Float.ofBits (frm.toBits + 1)
-      else Float.ofBits (frm.toBits - 1)
-    if ret == 0.0 then copysign ret frm else ret
-
-/-- `segment_to_segment`: `while n <= width * f { f = nextafter(f, 0.0) }`.
-`none` = the loop does not end: either `nextafter` returns its argument
-unchanged (bit for bit) while the condition holds – then no later iteration
-can differ – or the fuel runs out. -/
-def segLoop (n width : Float) : Nat → Float → Option Float
-  | 0, _ => none
-  | fuel + 1, f =>
-    if n ≤ width * f then
-      let f' := nextafter f 0.0
-      if f'.toBits == f.toBits then none else segLoop n width fuel f'
-    else some f
-
-/-- the closure `move |v| { debug_assert!(min <= v && v <= max, …); (f * (v - min)) as u64 }`;
-`none` = the assertion fails.  `as u64` saturates and maps NaN to 0, like `Float.toUInt64`. -/
-def segCell (min max f v : Float) : Option Nat :=
-  if min ≤ v ∧ v ≤ max then some (f * (v - min)).toUInt64.toNat else none
-
 def seg (order : Nat) (min max : Float) (vs : List Float) : String :=
   if ¬ (min ≤ max) then "panic assertion failed: min <= max"
   else if order ≥ 64 then "panic attempt to shift left with overflow"
   else
-    let width := max - min
-    -- `(1_u64 << order) as f64`: a power of two, exact
-    let n := fOfBits ((1023 + order) <<< 52)
-    match segLoop n width 100000 (n / width) with
+    match segFactor min max order with
     | none => "hang"
     | some f =>
       match vs.mapM (segCell min max f) with
